@@ -41,7 +41,7 @@ PROPS = {
                       "hash input is independent of tag iteration order. Model tied to token.go/options.go by differential runs on the real generator and builders.",
         "level_note": "Trusted: Lean kernel; Model/Token.lean hand-written (k8s.io/utils/lru modelled as an MRU-first list); uuid.NewString freshness and MD5 collision-freeness are assumptions; "
                       "the retry theorem is conditional on fewer than cap other operations in between (bounded LRU, default 500; witness c16_eviction_witness) - the listed property text has no such bound, "
-                      "see known finding; of the OpenAPI wrappers the six that create interfaces / assign addresses for ECS and the EFLO create are exercised through the SDK (scripted transport; one attempt per call, or three throttled attempts re-sending the same request object); AssignLeniPrivateIPAddress2 is not.",
+                      "see known finding; of the OpenAPI wrappers the six that create interfaces / assign addresses for ECS and the EFLO create are exercised through the SDK (scripted transport; one attempt per call, three throttled attempts re-sending the same request object, or one throttled attempt after which the client-side rate limiter - one request a minute, on a client of its own sharing generator and transport - cannot admit the next before the context's 200 ms deadline); AssignLeniPrivateIPAddress2 is not.",
         "assumptions": ["uuid.NewString never repeats", "MD5 of the JSON-serialised request is collision-free on distinct requests",
                         "call sites invoke the roll-back closure at most once, with the token they were given"],
         "trusted_base": ["Model/Token.lean (hand-written)", "alibaba-cloud-sdk-go request signing / response decoding beneath the scripted transport"],
